@@ -26,12 +26,7 @@ for mf in sorted(glob.glob(os.path.join(HERE, 'seeded', '*', 'meta.json'))):
                                                   '' if own else ' (**own check silent**)'))
 out += rows
 out.append('')
-out.append('Checks that missed a seeded change when it arrived, and what was strengthened (all are caught now, see table): '
-           '`C10-allclose-zero-flank` (amplitude factors only spanned 2^±10 — now 2^±60 and very small / large units in the signal '
-           'generator); `C14-fit-cache-on-array-identity` (the history driver passed a fresh copy of the signal to every fit — now the '
-           'same array objects are re-used and edited in place, as a user would); `C20-param-panel-drops-cycle-starting-on-window-start` '
-           '(panels were only required to show cycles *strictly* inside the view — now every cycle lying entirely inside it, the same '
-           'reading as the highlight clause); the C11 change was silent in C12 until C12 also varied `progress`.\n')
+out.append(open(os.path.join(HERE, 'tools', 'missed_log.md')).read())
 out.append('### 5.1b Behaviour-preserving refactorings (false-alarm resistance)\n')
 out.append('Six further sub-agents were each given two to four property texts and a scratch worktree and asked for a *substantial '
            'refactoring that keeps the properties true* (vectorising loops, restructuring branches, renaming and splitting helpers, '
